@@ -228,6 +228,20 @@ def execute(doc):
       rec.event(step, 'boot', 'ok' if not rec.violations else 'violation')
     elif kind in ('update', 'load'):
       outcome, _ = editgen.apply_edit(q, op)
+      if kind == 'load' and 'shipped' in op and outcome == 'ok':
+        # a shipped file loaded at any point of a history must give exactly the rules it states
+        with open(editgen.shipped_path(op['shipped'])) as f:
+          stated = [(r_['regex'], r_['operation'], r_['algorithm_key']) for r_ in json.load(f)]
+        loaded = [(r_['regex'], getattr(r_['operation'], 'value', r_['operation']),
+                   getattr(r_['algorithm_key'], 'value', r_['algorithm_key']))
+                  for r_ in q.get_quantization_recipe()]
+        rec.probe('shipped_loaded_mid_history')
+        if stated != loaded:
+          rec.violate('C12/shipped-recipe/%s.json' % op['shipped'], step,
+                      'shipped recipe %s loaded into a Quantizer that already had rules: file states %s, '
+                      'recipe is %s' % (op['shipped'], stated, loaded))
+          rec.event(step, kind, 'violation')
+          break
       if outcome.startswith('rejected'):
         rec.fault('rejected_update')
       if outcome.startswith('raised'):
